@@ -145,6 +145,17 @@ pub fn run(ctx: &Ctx) -> Result<(), String> {
             }
         }
     }
+    // unknown version numbers that differ from draft-13 (0x8000000c) in a few bits or in byte order:
+    // equal low / high half, one bit off, byte-swapped, shifted
+    for x in [0x0000_000cu32, 0x0001_000c, 0x7fff_000c, 0x8001_000c, 0xffff_000c, 0x8000_0000, 0x8000_000d, 0x8000_0008, 0x8000_010c, 0x8000_00c0, 0x0c00_0080, 0x0000_800c, 0x800c_0000] {
+        let xb = x.to_le_bytes().to_vec();
+        let unknown = vec![0x01u8, 0, 0, 0x80];
+        for l in [xb.clone(), [xb.clone(), unknown.clone()].concat(), [unknown.clone(), xb.clone()].concat(), [vec![0u8; 4], xb.clone()].concat(), [xb.clone(), xb.clone(), xb.clone(), xb.clone()].concat()] {
+            for (sl, s) in &srvs {
+                cases.push(Case { ver: Some(l.clone()), srv: s.clone(), label: format!("verlist-near-miss-number/srv-{}", sl), extra: 0 });
+            }
+        }
+    }
     let table_n = cases.len();
     // minimal list: SRV under every single-bit corruption, wrong lengths, another server's value
     for bit in 0..256 {
@@ -271,7 +282,7 @@ pub fn run(ctx: &Ctx) -> Result<(), String> {
     ctx.cov("outcome_classes", json!(cls));
     ctx.cov("exhaustive", json!(true));
     ctx.cov("bound", json!({"ver_list_len_max": maxlen, "ver_alphabet": VERS.iter().map(|v| hex(v)).collect::<Vec<_>>(), "srv_bitflips": 256}));
-    ctx.cov("rule", json!(format!("truth table: every VER list of length 0..={} over {{draft-13, classic 0, 0x80000001, 0x8000000b, 0xffffffff}} plus VER absent, x SRV {{absent, correct, another server's}}; lists of unknown numbers whose bytes spell the draft-13 number across an entry boundary; the lists of length <= 2 again with additional tags (SIG before VER; SIG and DELE; PAD after ZZZZ) that move VER/SRV/NONC to other field positions; for the minimal list SRV under each of the 256 single-bit corruptions and lengths 0/4/28/36/64. Each request is one transition on a long-running real in-process Server (one per shard, alive-check by sentinel at the end); the whole table runs in five server states: batch_size 64 one request per poll cycle, batch_size 1/2/4 with requests arriving in groups that fill the batch exactly, and batch_size 64 after a full batch of 64 valid requests. Oracle (3-valued): must answer iff draft-13 among the first four entries and SRV absent/correct; must not answer if the list lacks draft-13 or SRV differs; may if draft-13 only at position >= 5; every reply authentic with SREP.VER = draft-13 and VERS containing it.", maxlen)));
+    ctx.cov("rule", json!(format!("truth table: every VER list of length 0..={} over {{draft-13, classic 0, 0x80000001, 0x8000000b, 0xffffffff}} plus VER absent, x SRV {{absent, correct, another server's}}; lists of unknown numbers whose bytes spell the draft-13 number across an entry boundary; lists with unknown numbers that differ from draft-13 in a few bits, in one half, or in byte order; the lists of length <= 2 again with additional tags (SIG before VER; SIG and DELE; PAD after ZZZZ) that move VER/SRV/NONC to other field positions; for the minimal list SRV under each of the 256 single-bit corruptions and lengths 0/4/28/36/64. Each request is one transition on a long-running real in-process Server (one per shard, alive-check by sentinel at the end); the whole table runs in five server states: batch_size 64 one request per poll cycle, batch_size 1/2/4 with requests arriving in groups that fill the batch exactly, and batch_size 64 after a full batch of 64 valid requests. Oracle (3-valued): must answer iff draft-13 among the first four entries and SRV absent/correct; must not answer if the list lacks draft-13 or SRV differs; may if draft-13 only at position >= 5; every reply authentic with SREP.VER = draft-13 and VERS containing it.", maxlen)));
     ctx.sample(json!({"ver":"0b000080 00000000 0c000080","srv":"absent","expect":"must-answer"}));
     ctx.sample(json!({"ver":"00000000 x4 then 0c000080","srv":"correct","expect":"may-answer"}));
     ctx.sample(json!({"ver":"0c000080","srv":"bit 17 flipped","expect":"must-not-answer"}));
